@@ -506,8 +506,10 @@ class _BulkEs:
         pass
 
 
-def _run_through_adapter(t, case, group, seed, target=None):
-    """the clients of one worker run the bulk task through the real AsyncIoAdapter / AsyncExecutor / schedule_for / bulk runner"""
+def _run_through_adapter(t, case, group, seed, target=None, sibling=False):
+    """the clients of one worker run the bulk task through the real AsyncIoAdapter / AsyncExecutor / schedule_for / bulk runner;
+    sibling: a second task that refers to the same operation (as two differently named tasks of a parallel element may) runs next to it
+    on the same worker, with as many clients - every task ingests the corpora on its own"""
     import threading
 
     from esrally.driver import driver
@@ -534,6 +536,12 @@ def _run_through_adapter(t, case, group, seed, target=None):
     for c in group:
         allocs.append(driver.ClientAllocation(c, driver.TaskAllocation(task, c, c, case["clients"])))
         contexts[c] = driver.ClientContext(client_id=c, parent_worker_id=0)
+    if sibling:
+        n = case["clients"]
+        task2 = track.Task("bulk-task-again", op, clients=n, params=dict(task.params))
+        for c in group:
+            allocs.append(driver.ClientAllocation(n + c, driver.TaskAllocation(task2, c, n + c, 2 * n)))
+            contexts[n + c] = driver.ClientContext(client_id=n + c, parent_worker_id=0)
     with kernel.patched(*(kernel.time_patches(clock) + [(driver.client, "EsClientFactory", Factory)])):
         sampler = driver.Sampler(start_timestamp=clock.perf_counter())
         adapter = driver.AsyncIoAdapter(cfg, t, allocs, sampler, threading.Event(), threading.Event(), "abort", contexts, 0)
@@ -838,14 +846,23 @@ def _run_files(case, obs):
             if case["seed"] % 4 == 0 and total_docs <= 3000 and not case["conflicts"]:
                 # unthrottled, or throttled so that clients wait (holding the bulk they were given) while their neighbours ask for theirs
                 target = [None, 8, "1000 docs/s"][(case["seed"] // 4) % 3]
-                sent = _run_through_adapter(t, case, group, seed, target)
+                sibling = (case["seed"] // 12) % 2 == 1
+                try:
+                    sent = _run_through_adapter(t, case, group, seed, target, sibling)
+                except exceptions.RallyError as e:
+                    obs.violation("end-to-end/error", f"group {gi}: the real AsyncIoAdapter failed ({'two tasks on one operation' if sibling else 'one task'}): {str(e)[:300]}")
+                    sent = None
                 if target is not None:
                     obs.cls("end-to-end-throttled")
+                if sibling:
+                    obs.cls("end-to-end-two-tasks-on-one-operation")
+                copies = 2 if sibling else 1
                 obs.check(
-                    sorted(sent) == sorted(_body_bytes(x.body) for x in bulks_a),
+                    sent is None or sorted(sent) == sorted([_body_bytes(x.body) for x in bulks_a] * copies),
                     "end-to-end/bulks-differ",
-                    f"group {gi}: the real AsyncIoAdapter sent {len(sent)} bulk requests, the drained parameter source yields {len(bulks_a)}"
-                    + ("" if len(sent) != len(bulks_a) else " with different bodies"),
+                    lambda: f"group {gi}: the real AsyncIoAdapter sent {len(sent)} bulk requests, the drained parameter source yields {len(bulks_a)}"
+                    + (" for each of the two tasks that use the operation" if sibling else "")
+                    + ("" if len(sent) != copies * len(bulks_a) else " with different bodies"),
                 )
                 obs.cls("end-to-end-through-AsyncIoAdapter")
 
